@@ -497,6 +497,20 @@ class Run:
         self.violations.append(v)
         return v
 
+    def import_rules(self, other_prop, run_fn, only, as_prefix):
+        """Evaluate the rules of another property that this one's clause rests on (`only`: rule-id prefixes of the other property) and
+        report them under this property's name (`C08.admit…` → `<as_prefix>.admit…`).  The rules are written once; a property whose
+        statement covers the same comparison is answerable for it too.  Known-finding keys of the other property do not carry over."""
+        child = Run(self.F, other_prop, self.tier)
+        run_fn(child)
+        pre = other_prop + "."
+        for i in child.instances:
+            if any(i["rule"].startswith(o) for o in only):
+                self.instances.append(dict(i, rule=as_prefix + "." + i["rule"][len(pre):]))
+        for v in child.violations:
+            if any(v.rule.startswith(o) for o in only):
+                self.violations.append(Violation(self.prop, as_prefix + "." + v.rule[len(pre):], v.key, v.msg, file=v.file, line=v.line, function=v.function, trace=v.trace))
+
     def body(self, rule, path):
         b = self.F.body(path)
         if b is None:
@@ -872,6 +886,42 @@ def accepted_path_misses(g, acc, rej, sinks, rets):
         if g.reach((d_,), cut=rej, avoid=sinks) & rets:
             return True
     return False
+
+
+def _reaches_except(self, rule, fn, target, allowed, descr, starts=(0,), key="skipped"):
+    """K5 with enumerated exits: every path from `starts` to a normal return of `fn` performs `target`, unless it left through a
+    *rejecting* edge of one of the `allowed` guards (the listed, legitimate reasons to do nothing) or through a `?` error exit.
+    A new early return in front of the essential step — "skip the list of a peer we have an issue with", "the key got stored meanwhile,
+    drop the fetched copy" — is reported with the path."""
+    body = fn if not isinstance(fn, str) else self.body(rule, fn)
+    if body is None:
+        return False
+    prep(body)
+    g = cfg_of(body)
+    tg = set(target.blocks(body))
+    if not tg:
+        self.viol(rule, "effect-missing:%s" % target.descr(), "%s: `%s` not found" % (body.path, target.descr()), body, body.lines[0])
+        self.inst(rule, "K5 must-follow (enumerated exits)", descr, 0, False)
+        return False
+    cut = set()
+    details = []
+    for gd in allowed:
+        n, acc, rej = gd.edges(body)
+        cut |= set(rej)
+        details.append({"allowed_exit": gd.label, "sites": n, "reject_edges": len(rej)})
+    errs = {b["id"] for b in body.blocks if b["term"]["k"] == "call" and not b["cleanup"] and "from_residual" in (b["term"].get("ngen") or b["term"].get("ncallee") or "")}
+    rets = {b["id"] for b in body.blocks if b["term"]["k"] == "return" and not b["cleanup"]}
+    bad = g.reach(tuple(starts), cut=cut, avoid=tg | errs) & rets
+    ok = not bad
+    if bad:
+        p = g.path(tuple(starts), bad, cut=cut, avoid=tg | errs)
+        self.viol(rule, "%s:%s" % (key, target.descr()), "%s can return without `%s` for a reason other than: %s" % (body.path, target.descr(), "; ".join(gd.label for gd in allowed) or "(none)"),
+                  body, None, trace=g.lines(p))
+    self.inst(rule, "K5 must-follow (enumerated exits)", descr, len(tg), ok, {"exits": details})
+    return ok
+
+
+Run.reaches_except = _reaches_except
 
 
 def _must_pass(self, rule, fn, required, descr=None, from_blocks=None, exits="return"):
@@ -1610,7 +1660,7 @@ def loops_over(F, body, source_pred):
     return out
 
 
-def receiver_chain_calls(body, local, limit=60):
+def receiver_chain_calls(body, local, limit=60, stop=()):
     """callee names met going back from `local` through copies, borrows and the *receiver* (first argument) of each producing call — the
     adaptor chain of an iterator, without the provenance of the other arguments of the calls on it"""
     prep(body)
@@ -1625,11 +1675,14 @@ def receiver_chain_calls(body, local, limit=60):
         if t["k"] == "call" and len(t.get("d") or []) == 1:
             defs.setdefault(t["d"][0], []).append(("c", t))
     names, seen, todo = [], set(), [local]
+    stop = set(stop)
     while todo and len(seen) < limit:
         l = todo.pop()
         if l in seen or l is None:
             continue
         seen.add(l)
+        if l in stop:
+            continue
         for k, d in defs.get(l, ()):
             if k == "s":
                 p = d["a"][1] if d["k"] == "use" and d["a"][0] in ("cp", "mv") else d.get("p") if d["k"] in ("ref",) else None
